@@ -288,7 +288,7 @@ C11(pre, ev, post, aux) ==
 Untimed(dv) == [dv EXCEPT !.up = 0, !.ut = 0]
 SdOf(ev, d) == Sel(ev.sd, LAMBDA x : x[2] = d)
 Triple(kind, d, isf, p) == << <<kind, d, 1, isf, p>>, <<kind, d, 2, isf, p>>, <<kind, d, 3, isf, p>> >>
-C13(pre, ev, post, aux) ==
+C13d(pre, ev, post, aux) ==
     LET a1 == AuxNext(aux, pre, ev, post) IN
     C("C13.DownAcceptsAndReleasesNothing",
       \A d \in Procs : (pre.dev[d].down /\ post.dev[d].down) =>
@@ -296,10 +296,7 @@ C13(pre, ev, post, aux) ==
            /\ Occ(ev, "recv", d) = <<>>
            /\ (post.dev[d].inp = pre.dev[d].inp \/ (IsFailOf(ev, d) /\ post.dev[d].inp = 0)))
     \cup C("C13.FailureDiscardsPartInProcess",
-           \A d \in Procs : IsFailOf(ev, d) =>
-               /\ post.dev[d].inp = 0 /\ post.dev[d].out = pre.dev[d].out /\ post.dev[d].down
-               /\ Len(Recs(ev, "device_failure", d)) = 1
-               /\ Recs(ev, "device_failure", d)[1][4] = pre.dev[d].inp)
+           \A d \in Procs : IsFailOf(ev, d) => post.dev[d].inp = 0 /\ post.dev[d].out = pre.dev[d].out /\ post.dev[d].down)
     \cup C("C13.LostPartReportedOnceToCallbacks",
            \A d \in Procs : (IsFailOf(ev, d) /\ pre.dev[d].inp # 0) => SdOf(ev, d) = Triple("down", d, TRUE, pre.dev[d].inp))
     \cup C("C13.CallbacksOncePerOccurrenceInOrder",
@@ -314,6 +311,12 @@ C13(pre, ev, post, aux) ==
               /\ (ScriptOn(ev, "restore", d) /\ ~pre.dev[d].down) => Untimed(post.dev[d]) = Untimed(pre.dev[d]))
     \cup C("C13.UptimeIsOperationalTime", \A d \in Procs : post.dev[d].up = a1.upAcc[d])
     \cup C("C13.UtilizationIsProcessingTime", \A d \in Procs : post.dev[d].ut = a1.utAcc[d])
+
+C13(pre, ev, post, aux) ==
+    C13d(pre, ev, post, aux)
+    \cup C("C13.FailureLoggedOnceWithThePart",
+           \A d \in Procs : IsFailOf(ev, d) => /\ Len(Recs(ev, "device_failure", d)) = 1
+                                                /\ Recs(ev, "device_failure", d)[1][4] = pre.dev[d].inp)
 
 (***************************************************************************)
 (* C15  recorded data mirrors what happened                                *)
@@ -434,6 +437,13 @@ C17(pre, ev, post, aux) ==
     \cup C("C17.BuffersAndSinksCountEveryPart",
            /\ \A d \in Sinks : post.dev[d].count - pre.dev[d].count = Len(ArrivedLeaves(pre, ev, d))
            /\ \A d \in Buffers : post.dev[d].level = BufLeaves(post, d))
+
+(* the clauses that do not need the recorded datapoints (ev.recs, ev.vh): checked on the closed      *)
+(* specification as well as on recorded runs                                                        *)
+DesignClauses(pre, ev, post, aux) ==
+    C02(pre, ev, post, aux) \cup C03(pre, ev, post, aux) \cup C04(pre, ev, post, aux) \cup C05(pre, ev, post, aux)
+    \cup C06(pre, ev, post, aux) \cup C08(pre, ev, post, aux) \cup C11(pre, ev, post, aux) \cup C13d(pre, ev, post, aux)
+    \cup C17(pre, ev, post, aux)
 
 ObsClauses(pre, ev, post, aux, jpost, jpre) ==
     C08(pre, ev, post, aux) \cup C17(pre, ev, post, aux) \cup
